@@ -311,6 +311,17 @@ pub fn gen(tier: &str, rng: &mut Rng, out: &mut Vec<String>) {
             all_decoders(&s, "", rng, out);
         }
     }
+    // (e') leading '1's decode to whole zero bytes: short strings that still decode to 4 or more bytes — every string
+    // 1^z w with z <= 6 and |w| <= 1 over the whole alphabet, and sampled |w| = 2
+    const ALPHA: &[u8] = b"123456789ABCDEFGHJKLMNPQRSTUVWXYZabcdefghijkmnopqrstuvwxyz";
+    for z in 0..=6usize {
+        all_decoders(&"1".repeat(z), "", rng, out);
+        for c in ALPHA { let s = format!("{}{}", "1".repeat(z), *c as char); all_decoders(&s, "", rng, out); }
+        for _ in 0..(if thorough { 400 } else { 30 }) {
+            let s = format!("{}{}{}", "1".repeat(z), *rng.pick(ALPHA) as char, *rng.pick(ALPHA) as char);
+            all_decoders(&s, "", rng, out);
+        }
+    }
     all_decoders(&"1".repeat(132), "", rng, out);
     all_decoders(&"z".repeat(120), "", rng, out);
     all_decoders(&"z".repeat(132), "", rng, out);
